@@ -929,6 +929,11 @@ func (e *Engine) builtin(st *State, name string, args []Val, call *ssa.CallCommo
 	case "copy":
 		return e.copyOp(st, args[0], args[1], call, pos)
 	case "delete":
+		if u, ok := call.Args[0].(*ssa.UnOp); ok && u.Op == token.MUL {
+			if fa, ok := u.X.(*ssa.FieldAddr); ok {
+				e.guardedWrite(st, fa, pos)
+			}
+		}
 		e.mapDelete(st, args[0], args[1], call.Args[0].Type().Underlying().(*types.Map), pos)
 		return Val{K: KUnit}
 	case "panic":
